@@ -78,6 +78,12 @@ impl<T> VxIter<T> {
             !r ==> forall|i: int| 0 <= i < self.items().len() ==> f.ensures((#[trigger] self.items()[i],), false),
     { unimplemented!() }
     #[verifier::external_body]
+    pub fn all<F: Fn(T) -> bool>(self, f: F) -> (r: bool)
+        requires forall|i: int| 0 <= i < self.items().len() ==> f.requires((#[trigger] self.items()[i],))
+        ensures r == (forall|i: int| 0 <= i < self.items().len() ==> f.ensures((#[trigger] self.items()[i],), true)),
+            !r ==> exists|i: int| 0 <= i < self.items().len() && f.ensures((#[trigger] self.items()[i],), false),
+    { unimplemented!() }
+    #[verifier::external_body]
     pub fn filter_map<U, F: Fn(T) -> Option<U>>(self, f: F) -> (r: VxIter<U>)
         requires forall|i: int| 0 <= i < self.items().len() ==> f.requires((#[trigger] self.items()[i],))
         ensures
